@@ -11,7 +11,7 @@ EXPLANATION = (
     "failing call appends exactly one wrapper and leaves the loop, the success path appends the result, and nothing else "
     "appends — results are in call order and nothing runs after the first failure; the wrapper class written is the class the "
     "client tests (shared with C07-R5); batch/oneway flags agree on both sides; BatchProxy submits the collected calls once "
-    "and clears them on every path. Not decided: equivalence of effects with sequential execution on a stateful object."
+    "and clears them on every path; the batch envelope (kwargs slot None) is accepted by every serializer's dumpsCall/loadsCall. Not decided: equivalence of effects with sequential execution on a stateful object."
 )
 
 
@@ -21,6 +21,7 @@ def run(ctx, R, tier):
     R.rule("C11-R2", "stop at first failure: the handler appends one wrapper and breaks; the success path appends the result; no other append", floor=3)
     R.rule("C11-R3", "the wrapper class written by the server is the class the client re-raises (shared with C07-R5)", floor=3)
     R.rule("C11-R5", "the (name, args, kwargs) triple is written by the client and unpacked by the server in the same order", floor=1)
+    R.rule("C11-R6", "for every serializer: the batch envelope (kwargs=None) is accepted by dumpsCall/loadsCall (shared with C01-R9)", floor=8)
     R.rule("C11-R4", "flags: batched replies carry FLAGS_BATCH; the client sets FLAGS_BATCH (+ONEWAY); BatchProxy clears its calls after every submit; oneway returns nothing", floor=5)
 
     hr = ctx.fn("Pyro5.server.Daemon.handleRequest")
@@ -130,6 +131,14 @@ def run(ctx, R, tier):
     for o in R7.obs:
         if o.rule == "C07-R5":
             R.add("C11-R3", o.key.split("|", 1)[1], o.desc, o.ok, o.loc, o.detail)
+
+    # ---------------------------------------------------------------- R6 (shared with C01-R9)
+    from . import c01
+    R1 = Rules("C01")
+    c01.run(ctx, R1, tier)
+    for o in R1.obs:
+        if o.rule == "C01-R9":
+            R.add("C11-R6", o.key.split("|", 1)[1], o.desc + " (a batch request carries kwargs=None: it must work with every serializer)", o.ok, o.loc, o.detail)
 
     # ---------------------------------------------------------------- R4
     batch_true_nodes = lambda st: all(cfg.guarded(n, lambda e: edge_has_fact(e, batch_true)) for n in cfg.nodes_for(st))
